@@ -39,17 +39,19 @@ type cfg struct {
 }
 
 type inst struct {
-	c        cfg
-	srv      *fakeapi.Server
-	received []string
-	cache    map[string]metav1.Object
-	final    string
-	server   string
-	finalRV  []string
-	finished bool
-	clock    int64
-	watches  int
-	relists  int
+	watchTimes  []int64
+	watchFailed []bool
+	c           cfg
+	srv         *fakeapi.Server
+	received    []string
+	cache       map[string]metav1.Object
+	final       string
+	server      string
+	finalRV     []string
+	finished    bool
+	clock       int64
+	watches     int
+	relists     int
 }
 
 func history(n int) []mut {
@@ -139,6 +141,8 @@ func (in *inst) run() {
 	in.final = hx.ListString(l)
 	in.server = hx.ListString(in.srv.Objects())
 	in.finalRV = append([]string{}, in.srv.WatchRVs...)
+	in.watchTimes = append([]int64{}, in.srv.WatchTimes...)
+	in.watchFailed = append([]bool{}, in.srv.WatchFailed...)
 	in.watches = in.srv.Watches
 	close(stop)
 	<-w.Done()
@@ -156,10 +160,25 @@ func (in *inst) check(r *vs.Result) []string {
 		msgs = append(msgs, fmt.Sprintf("watch events lost across reconnect | %s: after all reconnects (virtual time %ds, %d Watch calls at versions %v) the consumer's cache holds %s but the server holds %s; events received: %v",
 			desc, in.clock/1e9, in.watches, in.finalRV, in.final, in.server, in.received))
 	}
+	// "within the reconnect delay": a failed connect is retried one reconnect delay (1 s) later, however many failed before
+	for i := 0; i+1 < len(in.watchTimes); i++ {
+		if in.watchFailed[i] && in.watchTimes[i+1]-in.watchTimes[i] > int64(time.Second) {
+			msgs = append(msgs, fmt.Sprintf("reconnect later than the reconnect delay | %s: Watch call #%d failed at %dms, the next one came at %dms (Watch calls at %v ms)", desc, i+1, in.watchTimes[i]/1e6, in.watchTimes[i+1]/1e6, ms(in.watchTimes)))
+			break
+		}
+	}
 	if len(r.Blocked) > 0 {
 		msgs = append(msgs, fmt.Sprintf("leak | goroutines left after the watcher is done: %v", names(r)))
 	}
 	return msgs
+}
+
+func ms(ts []int64) []int64 {
+	out := make([]int64, len(ts))
+	for i, t := range ts {
+		out[i] = t / 1e6
+	}
+	return out
 }
 
 func names(r *vs.Result) []string {
